@@ -41,6 +41,7 @@ HERE = os.path.dirname(os.path.abspath(__file__))
 VERIF = os.path.dirname(HERE)
 DEFAULT_SRC = os.path.join(os.environ.get("DASP_REPO", "/repo"), "dasp_ring_buffer", "src", "lib.rs")
 OUT = os.path.join(VERIF, "coq", "gen", "RingGen.v")
+OUT_CK = os.path.join(VERIF, "coq", "gen", "RingGenCk.v")
 
 
 class TranslateError(Exception):
@@ -961,8 +962,8 @@ def parse_file(src):
 # ---------------------------------------------------------------------------------------------
 # translation
 
-def coq_name(owner, name):
-    return f"{owner}_{name}"
+def coq_name(owner, name, checked=False):
+    return f"{owner}_{name}" + ("_ck" if checked else "")
 
 
 class Term:
@@ -1041,8 +1042,10 @@ def emit(t, ind):
 
 
 class FnTranslator:
-    def __init__(self, owner, trait, f, table):
-        self.owner, self.trait, self.f, self.table = owner, trait, f, table
+    def __init__(self, owner, trait, f, table, checked=False):
+        """checked: the 64-bit reading -- `+`, `*`, `+=` on usize become `uadd M` / `umul M` (overflow panic at the
+        modulus M, a section variable of the output) instead of unbounded nat arithmetic"""
+        self.owner, self.trait, self.f, self.table, self.checked = owner, trait, f, table, checked
         self.ntmp = 0
         self.iter_generics = set()
         for n, b in f["generics"] + f["where"]:
@@ -1145,7 +1148,7 @@ class FnTranslator:
             rty = f"({coq_type(REC(self.owner))})" if self.ret_kind == UNIT else f"({coq_type(REC(self.owner))} * {rt})"
         else:
             rty = rt if (rt.startswith("(") and rt.endswith(")")) or " " not in rt else f"({rt})"
-        head = f"Definition {coq_name(self.owner, f['name'])} " + " ".join(f"({n} : {t})" for n, t in params)
+        head = f"Definition {coq_name(self.owner, f['name'], self.checked)} " + " ".join(f"({n} : {t})" for n, t in params)
         return head + f" : res {rty} :=\n" + emit(body, "  ") + "."
 
     # ---- blocks and statements ----
@@ -1320,10 +1323,10 @@ class FnTranslator:
 
             if op == "=":
                 return store(v)
-            if op == "+=":
+            if op == "+=" and not self.checked:
                 return store(f"({cur} + {v})")
             t = self.tmp()
-            return ("bind", t, Call(f"usub {cur} {v}"), store(t))
+            return ("bind", t, Call(f"uadd M {cur} {v}" if op == "+=" else f"usub {cur} {v}"), store(t))
 
         return self.expr(rhs, env, after)
 
@@ -1503,8 +1506,12 @@ class FnTranslator:
                         return k(env2, r if op == "==" else f"(negb {r})", BOOL)
                     err(ln, f"`{op}` on operands that are not usize ({xk}, {yk})")
                 if op == "+":
+                    if self.checked:
+                        return self.fallible(f"uadd M {x} {y}", NAT, env2, k)
                     return k(env2, f"({x} + {y})", NAT)
                 if op == "*":
+                    if self.checked:
+                        return self.fallible(f"umul M {x} {y}", NAT, env2, k)
                     return k(env2, f"({x} * {y})", NAT)
                 if op == "-":
                     return self.fallible(f"usub {x} {y}", NAT, env2, k)
@@ -1648,7 +1655,7 @@ class FnTranslator:
 
     def user_call(self, target, owner, recv, args, env, k, ln):
         """recv: None (associated fn) or the Coq text of the receiver (always `s`)"""
-        self.calls.append(coq_name(owner, target["name"]))
+        self.calls.append(coq_name(owner, target["name"], self.checked))
         if len(args) != len(target["params"]):
             err(ln, f"{owner}::{target['name']}: wrong number of arguments")
         tt = FnTranslator(owner, None, target, self.table)
@@ -1659,7 +1666,7 @@ class FnTranslator:
             for (v, vk), want in zip(vs, pk):
                 if not kinds_agree(vk, want):
                     err(ln, f"{owner}::{target['name']}: argument of representation {vk} where {want} is needed")
-            text = coq_name(owner, target["name"]) + "".join(" " + x for x in ([recv] if recv else []) + [v for v, _ in vs])
+            text = coq_name(owner, target["name"], self.checked) + "".join(" " + x for x in ([recv] if recv else []) + [v for v, _ in vs])
             if target["self_mode"] == "mut":
                 if recv != "s" or self.self_mode != "mut":
                     err(ln, f"{owner}::{target['name']} needs `&mut self` but the caller only has `&self`")
@@ -1880,7 +1887,22 @@ Context {A : Type}.
 """
 
 
-def translate_text(src):
+HEADER_CK = """(* GENERATED by translate/ring2coq.py from dasp_ring_buffer/src/lib.rs -- do not edit.
+   The 64-bit reading of the same methods as gen/RingGen.v: every `+`, `*`, `+=` on usize is [uadd M] / [umul M]
+   (Ring/RingPrim.v: overflow panic when the result reaches the modulus M, as in a build with overflow checks;
+   M is a section variable, read 2^64).  Ring/RingGenCkEquiv.v proves that in valid states over storage of at most
+   M/2 elements no such panic exists: these definitions then equal those of gen/RingGen.v, for every index. *)
+Require Import List Arith Bool.
+From Dasp Require Import Base.Res Base.ListX Ring.Bounded Ring.Fixed Ring.RingPrim.
+Import ListNotations.
+
+Section RingGenCk.
+Context {A : Type}.
+Variable M : nat.
+"""
+
+
+def translate_text(src, checked=False):
     fns = parse_file(src)
     table = {}
     for owner, trait, f in fns:
@@ -1889,9 +1911,9 @@ def translate_text(src):
         table[(owner, f["name"])] = f
     defs = []
     for idx, (owner, trait, f) in enumerate(fns):
-        tr = FnTranslator(owner, trait, f, table)
+        tr = FnTranslator(owner, trait, f, table, checked)
         text = tr.translate()
-        defs.append(dict(name=coq_name(owner, f["name"]), text=text, calls=set(tr.calls), idx=idx,
+        defs.append(dict(name=coq_name(owner, f["name"], checked), text=text, calls=set(tr.calls), idx=idx,
                          sig=f"{owner}::{f['sig']}" + (f"   [impl {trait}]" if trait else ""), line=f["line"]))
     # callee before caller, otherwise source order
     names = {d["name"]: d for d in defs}
@@ -1910,13 +1932,13 @@ def translate_text(src):
 
     for d in defs:
         visit(d, [])
-    out = [HEADER]
+    out = [HEADER_CK if checked else HEADER]
     for d in order:
         sig = d["sig"].replace("(*", "( *").replace("*)", "* )")
         out.append(f"(* {sig} *)")
         out.append(d["text"])
         out.append("")
-    out.append("End RingGen.")
+    out.append("End RingGenCk." if checked else "End RingGen.")
     text = "\n".join(out) + "\n"
     return text, [d["name"] for d in order]
 
@@ -1972,8 +1994,8 @@ def write_if_changed(path, content):
     return True
 
 
-def generate(src_path=None, out_path=OUT):
-    """translate and write coq/gen/RingGen.v (only if changed). Returns (names, changed)."""
+def generate(src_path=None, out_path=OUT, out_ck_path=OUT_CK):
+    """translate and write coq/gen/RingGen.v and coq/gen/RingGenCk.v (only if changed). Returns (names, changed)."""
     src_path = src_path or DEFAULT_SRC
     try:
         with open(src_path) as f:
@@ -1981,8 +2003,9 @@ def generate(src_path=None, out_path=OUT):
     except OSError as e:
         raise TranslateError(f"cannot read {src_path}: {e}")
     text, names = translate_text(src)
-    changed = write_if_changed(out_path, text)
-    return names, changed
+    text_ck, names_ck = translate_text(src, checked=True)
+    changed = [os.path.basename(p) for p, t in ((out_path, text), (out_ck_path, text_ck)) if write_if_changed(p, t)]
+    return names + names_ck, changed
 
 
 if __name__ == "__main__":
@@ -1990,9 +2013,11 @@ if __name__ == "__main__":
         p = sys.argv[2] if len(sys.argv) > 2 else DEFAULT_SRC
         print(sensitivity(open(p).read()))
         sys.exit(0)
-    p = sys.argv[1] if len(sys.argv) > 1 else DEFAULT_SRC
+    ck = "--checked" in sys.argv
+    rest = [a for a in sys.argv[1:] if a != "--checked"]
+    p = rest[0] if rest else DEFAULT_SRC
     try:
-        sys.stdout.write(translate_text(open(p).read())[0])
+        sys.stdout.write(translate_text(open(p).read(), checked=ck)[0])
     except TranslateError as e:
         sys.stderr.write(f"TranslateError: {e}\n")
         sys.exit(2)
